@@ -529,7 +529,7 @@ func oddNotifs(rt *rapid.T, p *pool, label string) ([]*gpb.Notification, []strin
 				n.Update[0].Path = nil
 			}
 		case "nil-val":
-			if n != nil && len(n.Update) > 0 && n.Update[0] != nil {
+			if n != nil && len(n.Update) > 0 && n.Update[len(n.Update)-1] != nil {
 				n.Update[len(n.Update)-1].Val = nil
 			}
 		case "odd-prefix":
